@@ -126,6 +126,13 @@ def gen(rng, tier, index):
         return {'kind': 'exhaust', 'template': list(exhaust.TEMPLATES[index // 4]), 'engine': REPLICAS[index % 4], 'machine': '48K'}
     if index % 5 == 4:
         return gen_regsweep(rng, tier, index // 5)
+    if index % 160 == 13:
+        # run(start, stop, interrupts) of one engine against a reference run loop (interrupt scheduling inside run())
+        from . import p06
+        scn = p06.gen_batch(rng, tier, index)
+        scn['kind'] = 'runloop'
+        scn['replicas'] = [('py', 'c', 'pyfast')[(index // 160) % 3]]
+        return scn
     index = index - index // 5
     # one engine per scenario: undefined flag bits are taken over from that engine after every step,
     # so a scenario cannot mix engines (they may legitimately differ there only if C06 is broken)
@@ -148,7 +155,71 @@ def run_exhaust(scn):
     res['digest'] = hashlib.sha256(('%s|%d' % (scn['template'], n)).encode()).hexdigest()
     return res
 
+def run_runloop(scn):
+    """Simulator.run(start, stop, interrupts) against a reference loop: RefZ80 steps; after each instruction the
+    maskable interrupt is accepted iff interrupts are requested, IFF is set, the clock stands inside the INT-active
+    window and the instruction was neither EI nor a lone prefix.  Judged: PC, SP, IFF, IM, HALT, R and the clock
+    (where the run loop's scheduling shows); register contents are judged by the step scenarios."""
+    from . import p06
+    from .refz80 import PC, SP, IFF, IM, HALT, R, T
+    res = new_result()
+    engine = scn['replicas'][0]
+    st = lockstep.materialise_state(scn)
+    machine = st['machine']
+    frame = 70908 if machine != '48K' else 69888
+    int_active = 36 if machine != '48K' else 32
+    lockstep.get_replica(engine, machine)
+    if engine == 'c':
+        p06._chelper.submit(scn)
+        finals = p06._chelper.result(30)
+        if finals is None:
+            res['discard'] = 'batch program does not reach its stop address within the time limit'
+            return res
+        if 'error' in finals:
+            return fail(res, 'C05/runloop/exception', 'C engine raised %s' % finals['error'])
+    else:
+        finals, timed_out = p06._batch_finals(scn, [engine], 3)
+        if timed_out:
+            res['discard'] = 'batch program does not reach its stop address within the time limit'
+            return res
+    ref = lockstep.get_ref(machine)
+    ref.reset(st)
+    cpu = ref.cpu
+    reg = cpu.reg
+    start, stop = st['regs'][24], scn['stop']
+    code = range(min(start, stop), max(start, stop) + 4)
+    n = 0
+    first = True
+    while first or reg[PC] != stop:
+        first = False
+        info = cpu.step()
+        n += 1
+        if n > 300000:
+            res['discard'] = 'reference run loop exceeds 300000 steps'
+            return res
+        if any(a in code for a, v in info.writes):
+            res['discard'] = 'program writes into its own code (byte-based EI/prefix rule not judged)'
+            return res
+        if scn['interrupts'] and reg[IFF] and reg[T] % frame < int_active and not (info.ei or info.lone_prefix):
+            iinfo = cpu.accept_interrupt()
+            bump(res, 'fault:INT_ACCEPTED')
+            if any(a in code for a, v in iinfo.writes):
+                res['discard'] = 'interrupt pushes into the code'
+                return res
+    got = finals[engine][0]
+    bump(res, 'events', n)
+    bump(res, 'runloop_runs')
+    for i in (PC, SP, IFF, IM, HALT, R, T):
+        if got[i] != reg[i]:
+            return fail(res, 'C05/%s/runloop/%s' % (engine, lockstep.REGNAMES[i]), '%s.run(%d, %d, interrupts=%s): %s=%d, reference run loop %d after %d instructions\n engine: %s\n ref   : %s' % (
+                engine, start, stop, scn['interrupts'], lockstep.REGNAMES[i], got[i], reg[i], n, lockstep._fmt_regs(got), lockstep._fmt_regs(reg)))
+    res['sigs'] = ['runloop|%s|%s|%s' % (engine, machine, scn['interrupts'])]
+    res['digest'] = hashlib.sha256(repr([reg[i] for i in (PC, SP, R, T)]).encode()).hexdigest()
+    return res
+
 def run(scn):
+    if scn['kind'] == 'runloop':
+        return run_runloop(scn)
     if scn['kind'] == 'exhaust':
         return run_exhaust(scn)
     if scn['kind'] == 'regsweep':
@@ -166,11 +237,13 @@ def run(scn):
 def sample(scn, res):
     if scn['kind'] in ('regsweep', 'exhaust'):
         return scn
+    if scn['kind'] == 'runloop':
+        return {k: v for k, v in scn.items() if k != 'mem'}
     return {'kind': scn['kind'], 'machine': scn['machine'], 'slot': scn.get('slot'), 'steps': scn['steps'], 'ints': scn['ints'],
             'regs': scn['regs'], 'tracer': scn['tracer'], 'patches': scn['mem']['patches'][-1:]}
 
 def shrink_candidates(scn):
-    if scn['kind'] in ('regsweep', 'exhaust'):
+    if scn['kind'] in ('regsweep', 'exhaust', 'runloop'):
         return []
     return gen_lock.shrink_candidates(scn)
 
